@@ -40,6 +40,7 @@ PRIVATE = z3.Function("is_private", I, Bo)
 PARENTOP = z3.Function("parent_op", I, I)
 FIRST = z3.Function("first_child_named", I, I, I)
 NEAREST = z3.Function("nearest_table", I, I)
+EMPTY_NAME = z3.Function("is_empty_string", I, Bo)
 
 
 def children_seq(t):
@@ -113,7 +114,8 @@ class _Base(Spec):
                 return lift_bool(z_int(a) == z_int(b))
             return None
 
-        return {"__eq__": eq}
+        # a symbol name is a str: its truthiness is NOT `is not None` (the empty string is a legal, falsy symbol name)
+        return {"__eq__": eq, "__truthy__": {"str": lambda st, v: z3.And(v.z != 0, z3.Not(EMPTY_NAME(v.z)))}}
 
 
 class DirectChildren(_Base):
